@@ -3,8 +3,11 @@ package c02
 
 import (
 	"fmt"
+	"runtime"
 	"sort"
 	"strings"
+	"sync"
+	"sync/atomic"
 
 	"github.com/hashicorp/go-memdb"
 
@@ -276,6 +279,7 @@ func Run(c *ev.Ctx) {
 	sort.Strings(rs)
 	c.Set("registered_restorers", rs)
 	c.Set("queries", len(qs))
+	isolation(c, groups, seedsAll)
 	c.Set("rule", "every state of the BFS is a cut point: snapshot through the real FSM.Snapshot().Persist, restore into a fresh FSM (and, near the seeds, over a dirty one), compare all 36 tables with indexes, the resource store and the full query set (result and index); then apply every op of the alphabet to both and compare result and state")
 	c.Sample(map[string]any{"phases": phases})
 }
@@ -295,4 +299,77 @@ func kindClass(k string) string {
 		return k[:i]
 	}
 	return k
+}
+
+// isolation: a snapshot is a cut. raft takes it on the apply path and persists it later while further commands are
+// applied, so what is persisted must be the state at the moment Snapshot() returned. For every seed state and every
+// op of the alphabet: snapshot, apply the op, persist; the restored state must equal the restore of a snapshot that
+// was persisted at once (differential, so upstream's re-derived tables cancel out).
+func isolation(c *ev.Ctx, groups []cmdlib.Group, seedsAll map[string][]world.Op) {
+	alpha := cmdlib.Flatten(groups)
+	names := []string{"catalog+session", "mesh", "acl+ca", "peering+intentions", "legacy-intentions"}
+	type job struct {
+		seed string
+		op   world.Op
+	}
+	var jobs []job
+	for _, sn := range names {
+		for _, op := range alpha {
+			jobs = append(jobs, job{sn, op})
+		}
+	}
+	var next int64 = -1
+	var n int64
+	var wg sync.WaitGroup
+	for wk := 0; wk < runtime.NumCPU(); wk++ {
+		wg.Add(1)
+		go func() {
+			defer wg.Done()
+			for {
+				i := int(atomic.AddInt64(&next, 1))
+				if i >= len(jobs) || c.Expired() {
+					return
+				}
+				j := jobs[i]
+				w := newWorld()
+				w.ApplyAll(seedsAll[j.seed])
+				at := w.Next
+				direct, err := w.Persist()
+				if err != nil {
+					continue
+				}
+				later, err := w.Snapshot()
+				if err != nil {
+					continue
+				}
+				if _, ok := w.Apply(j.op); !ok {
+					later()
+					continue
+				}
+				bytesLater, err := later()
+				if err != nil {
+					c.Violate("C02:persist-failed:after-later-write", err.Error(), map[string]any{"seed": j.seed, "op": j.op.Name})
+					continue
+				}
+				a, err1 := restore(direct, at)
+				b, err2 := restore(bytesLater, at)
+				if err1 != nil || err2 != nil {
+					c.Violate("C02:restore-failed:after-later-write", fmt.Sprint(err1, err2), map[string]any{"seed": j.seed, "op": j.op.Name})
+					continue
+				}
+				atomic.AddInt64(&n, 1)
+				da, db := a.Dump(full), b.Dump(full)
+				if tabs := world.DiffTables(da, db); len(tabs) > 0 {
+					c.Violate(fmt.Sprintf("C02:snapshot-not-point-in-time:tables=%v:later-op=%s", tabs, j.op.Kind),
+						fmt.Sprintf("a snapshot taken before %s but persisted after it restores to a different state than the same snapshot persisted at once:\n%s", j.op.Name, world.Diff(da, db, 8)),
+						map[string]any{"seed": j.seed, "op": j.op.Name})
+				}
+				if fmt.Sprint(a.ResourceDump()) != fmt.Sprint(b.ResourceDump()) {
+					c.Violate("C02:snapshot-not-point-in-time:resources:later-op="+j.op.Kind, "resource store differs", map[string]any{"seed": j.seed, "op": j.op.Name})
+				}
+			}
+		}()
+	}
+	wg.Wait()
+	c.Set("snapshot_isolation_cases", n)
 }
